@@ -37,6 +37,9 @@ Model/Io.vos Model/Io.vok Model/Io.required_vos: Model/Io.v
 Model/LspText.vo Model/LspText.glob Model/LspText.v.beautified Model/LspText.required_vo: Model/LspText.v 
 Model/LspText.vio: Model/LspText.v 
 Model/LspText.vos Model/LspText.vok Model/LspText.required_vos: Model/LspText.v 
+Model/OrderOblivious.vo Model/OrderOblivious.glob Model/OrderOblivious.v.beautified Model/OrderOblivious.required_vo: Model/OrderOblivious.v 
+Model/OrderOblivious.vio: Model/OrderOblivious.v 
+Model/OrderOblivious.vos Model/OrderOblivious.vok Model/OrderOblivious.required_vos: Model/OrderOblivious.v 
 Model/RetainCodec.vo Model/RetainCodec.glob Model/RetainCodec.v.beautified Model/RetainCodec.required_vo: Model/RetainCodec.v 
 Model/RetainCodec.vio: Model/RetainCodec.v 
 Model/RetainCodec.vos Model/RetainCodec.vok Model/RetainCodec.required_vos: Model/RetainCodec.v 
@@ -58,6 +61,9 @@ Proofs/C02Proofs.vos Proofs/C02Proofs.vok Proofs/C02Proofs.required_vos: Proofs/
 Proofs/C04Proofs.vo Proofs/C04Proofs.glob Proofs/C04Proofs.v.beautified Proofs/C04Proofs.required_vo: Proofs/C04Proofs.v Model/Fb.vo Spec/C04.vo
 Proofs/C04Proofs.vio: Proofs/C04Proofs.v Model/Fb.vio Spec/C04.vio
 Proofs/C04Proofs.vos Proofs/C04Proofs.vok Proofs/C04Proofs.required_vos: Proofs/C04Proofs.v Model/Fb.vos Spec/C04.vos
+Proofs/C05Proofs.vo Proofs/C05Proofs.glob Proofs/C05Proofs.v.beautified Proofs/C05Proofs.required_vo: Proofs/C05Proofs.v Model/OrderOblivious.vo gen/C05Sites.vo
+Proofs/C05Proofs.vio: Proofs/C05Proofs.v Model/OrderOblivious.vio gen/C05Sites.vio
+Proofs/C05Proofs.vos Proofs/C05Proofs.vok Proofs/C05Proofs.required_vos: Proofs/C05Proofs.v Model/OrderOblivious.vos gen/C05Sites.vos
 Proofs/C06Proofs.vo Proofs/C06Proofs.glob Proofs/C06Proofs.v.beautified Proofs/C06Proofs.required_vo: Proofs/C06Proofs.v Model/Sched.vo Spec/C06.vo
 Proofs/C06Proofs.vio: Proofs/C06Proofs.v Model/Sched.vio Spec/C06.vio
 Proofs/C06Proofs.vos Proofs/C06Proofs.vok Proofs/C06Proofs.required_vos: Proofs/C06Proofs.v Model/Sched.vos Spec/C06.vos
@@ -91,6 +97,9 @@ Properties/C03.vos Properties/C03.vok Properties/C03.required_vos: Properties/C0
 Properties/C04.vo Properties/C04.glob Properties/C04.v.beautified Properties/C04.required_vo: Properties/C04.v Model/Fb.vo Spec/C04.vo Proofs/C04Proofs.vo
 Properties/C04.vio: Properties/C04.v Model/Fb.vio Spec/C04.vio Proofs/C04Proofs.vio
 Properties/C04.vos Properties/C04.vok Properties/C04.required_vos: Properties/C04.v Model/Fb.vos Spec/C04.vos Proofs/C04Proofs.vos
+Properties/C05.vo Properties/C05.glob Properties/C05.v.beautified Properties/C05.required_vo: Properties/C05.v Model/OrderOblivious.vo gen/C05Sites.vo Proofs/C05Proofs.vo
+Properties/C05.vio: Properties/C05.v Model/OrderOblivious.vio gen/C05Sites.vio Proofs/C05Proofs.vio
+Properties/C05.vos Properties/C05.vok Properties/C05.required_vos: Properties/C05.v Model/OrderOblivious.vos gen/C05Sites.vos Proofs/C05Proofs.vos
 Properties/C06.vo Properties/C06.glob Properties/C06.v.beautified Properties/C06.required_vo: Properties/C06.v Model/Sched.vo Spec/C06.vo Proofs/C06Proofs.vo
 Properties/C06.vio: Properties/C06.v Model/Sched.vio Spec/C06.vio Proofs/C06Proofs.vio
 Properties/C06.vos Properties/C06.vok Properties/C06.required_vos: Properties/C06.v Model/Sched.vos Spec/C06.vos Proofs/C06Proofs.vos
@@ -133,6 +142,9 @@ Spec/C18.vos Spec/C18.vok Spec/C18.required_vos: Spec/C18.v
 Spec/C18Judge.vo Spec/C18Judge.glob Spec/C18Judge.v.beautified Spec/C18Judge.required_vo: Spec/C18Judge.v Spec/C18.vo
 Spec/C18Judge.vio: Spec/C18Judge.v Spec/C18.vio
 Spec/C18Judge.vos Spec/C18Judge.vok Spec/C18Judge.required_vos: Spec/C18Judge.v Spec/C18.vos
+gen/C05Sites.vo gen/C05Sites.glob gen/C05Sites.v.beautified gen/C05Sites.required_vo: gen/C05Sites.v 
+gen/C05Sites.vio: gen/C05Sites.v 
+gen/C05Sites.vos gen/C05Sites.vok gen/C05Sites.required_vos: gen/C05Sites.v 
 gen/C18Tables.vo gen/C18Tables.glob gen/C18Tables.v.beautified gen/C18Tables.required_vo: gen/C18Tables.v 
 gen/C18Tables.vio: gen/C18Tables.v 
 gen/C18Tables.vos gen/C18Tables.vok gen/C18Tables.required_vos: gen/C18Tables.v 
